@@ -25,7 +25,9 @@ pub fn plain(a: &Args, rep: &mut Report) {
         heartbeat();
         let mut hr = rng.fork();
         let mut m: HashMap<String, u64> = if hr.chance(1, 2) { HashMap::new() } else { HashMap::with_capacity(hr.usize(40)) };
-        let mut c: HashMap<u64, u64> = HashMap::new();
+        let mut c: HashMap<u64, u64> = if hr.chance(1, 2) { HashMap::new() } else { HashMap::default() };
+        // a set mirroring the key set (Extend<&T>, FromIterator, Default on the set side)
+        let mut hs: HashSet<u64> = if hr.chance(1, 2) { HashSet::new() } else { HashSet::default() };
         let mut model: BTreeMap<u64, u64> = BTreeMap::new();
         let keyspace = *hr.pick(&[16u64, 100, 1000]);
         let n = 50 + hr.usize(400);
@@ -46,7 +48,7 @@ pub fn plain(a: &Args, rep: &mut Report) {
                         let a = m.insert(ks.clone(), v);
                         let b = c.insert(k, v);
                         let w = model.insert(k, v);
-                        if a != w || b != w {
+                        if a != w || b != w || hs.insert(k) != w.is_none() {
                             return Err(format!("{what}: {a:?}/{b:?} vs model {w:?}"));
                         }
                     }
@@ -65,7 +67,7 @@ pub fn plain(a: &Args, rep: &mut Report) {
                         let a = m.remove(ks.as_str());
                         let b = c.remove(&k);
                         let w = model.remove(&k);
-                        if a != w || b != w {
+                        if a != w || b != w || hs.remove(&k) != w.is_some() {
                             return Err(format!("{what}: {a:?}/{b:?} vs model {w:?}"));
                         }
                     }
@@ -74,12 +76,14 @@ pub fn plain(a: &Args, rep: &mut Report) {
                         *m.entry(ks.clone()).or_insert(v) += 1;
                         *c.entry(k).or_insert(v) += 1;
                         *model.entry(k).or_insert(v) += 1;
+                        hs.get_or_insert(k);
                     }
                     8 => {
                         // extend by reference (K: Copy, V: Copy)
                         let items: Vec<(u64, u64)> = (0..hr.usize(8)).map(|_| (hr.below(keyspace), hr.below(1000))).collect();
                         what = format!("extend(&{items:?})");
                         c.extend(items.iter().map(|(a, b)| (a, b)));
+                        hs.extend(items.iter().map(|(a, _)| a));
                         m.extend(items.iter().map(|(a, b)| (format!("key-{a}"), *b)));
                         for (a, b) in items {
                             model.insert(a, b);
@@ -98,6 +102,33 @@ pub fn plain(a: &Args, rep: &mut Report) {
                         let f: HashMap<u64, u64> = model.iter().map(|(a, b)| (*a, *b)).collect();
                         if f != c || c != f || f.len() != model.len() {
                             return Err("from_iter map differs".to_string());
+                        }
+                        let fs: HashSet<u64> = model.keys().copied().collect();
+                        if fs != hs || hs != fs || fs.len() != model.len() {
+                            return Err("from_iter set differs".to_string());
+                        }
+                    }
+                    _ if v % 5 == 0 => {
+                        // IntoIterator for &mut HashMap / &HashMap
+                        what = "for (_, v) in &mut map".to_string();
+                        for (_, x) in &mut m {
+                            *x += 3;
+                        }
+                        for (_, x) in &mut c {
+                            *x += 3;
+                        }
+                        for x in model.values_mut() {
+                            *x += 3;
+                        }
+                        let mut seen = 0usize;
+                        for (kk, vv) in &c {
+                            seen += 1;
+                            if model.get(kk) != Some(vv) {
+                                return Err(format!("for (k, v) in &map yields ({kk}, {vv}), model says {:?}", model.get(kk)));
+                            }
+                        }
+                        if seen != model.len() {
+                            return Err(format!("for (k, v) in &map yields {seen} pairs, model holds {}", model.len()));
                         }
                     }
                     _ => {
@@ -128,6 +159,11 @@ pub fn plain(a: &Args, rep: &mut Report) {
                 want2.sort();
                 if got != want || got2 != want2 {
                     return Err(format!("contents differ from the model after {what}"));
+                }
+                let mut gs: Vec<u64> = hs.iter().copied().collect();
+                gs.sort_unstable();
+                if hs.len() != model.len() || !gs.iter().eq(model.keys()) {
+                    return Err(format!("the mirrored key set differs from the model after {what}"));
                 }
             }
             Ok(())
